@@ -332,7 +332,7 @@ class C02(StreamProp):
     FULL = ["dom", "dom_str", "sj", "emb", "rdr"]
     STREAM = ["stream_bytes", "stream_slice", "stream_faststr"]
     streams = [("c02",
-                [("corr", "lazy", "m.lazy", "full"), ("corr", "dom", "m.dom", "ar")]
+                [("corr", "lazy", "m.lazy", "full"), ("corr", "dom", "m.dom", "ar"), ("corr", "dom", "m.domp", "ar")]
                 + [("oracle", f, "spec.skip", "ar") for f in SKIP]
                 + [("oracle", f, "spec.full", "ar") for f in FULL]
                 + [("oracle", f, "spec.prefix", "ar") for f in STREAM]
